@@ -43,17 +43,21 @@ def run(rep, kf, tier, seed):
                     case.props = ["C18"]
                     case.pool = None
                 cs.append(c)
-            for loc in locs:
-                opid = f"cap{i}{loc}"
-                path = f"/c{i}{loc}" + ("/{" + n + "}" if loc == "path" else "")
-                params = [{"name": n, "in": loc, "required": loc == "path", "schema": {"type": "string"}},
-                          {"name": "zz-other", "in": "query", "required": False, "schema": {"type": "integer"}}]
-                content = {"application/json": {"schema": {"$ref": "#/components/schemas/CapBody"}}}
+            shapes = [(loc, loc, None) for loc in locs] + [(tag, loc, content) for tag, loc, content in cf.EXTRA_SHAPES]
+            for tag, loc, content in shapes:
+                opid = f"cap{i}{tag}"
+                path = f"/c{i}{tag}" + ("/{" + n + "}" if loc == "path" else "")
+                if content is None:
+                    params = [{"name": n, "in": loc, "required": loc == "path", "schema": {"type": "string"}},
+                              {"name": "zz-other", "in": "query", "required": False, "schema": {"type": "integer"}}]
+                    content = {"application/json": {"schema": {"$ref": "#/components/schemas/CapBody"}}}
+                else:
+                    params = [{"name": n, "in": loc, "required": False, "schema": {"type": "string"}}]
                 try:
                     pkg.module(f"api.b.{opid}")
                 except Exception as e:  # noqa
-                    if not any(opid in (er.header or "") + (er.detail or "") or f"/c{i}{loc}" in (er.header or "") for er in pkg.errors):
-                        ob = core.Obligation(id=f"C18.F.{n}.param-{loc}.importable", props=["C18", "C01"], unit=f"operation with {loc} parameter {n!r}",
+                    if not any(opid in (er.header or "") + (er.detail or "") or f"/c{i}{tag}" in (er.header or "") for er in pkg.errors):
+                        ob = core.Obligation(id=f"C18.F.{n}.param-{tag}.importable", props=["C18", "C01"], unit=f"operation with {loc} parameter {n!r}",
                                              backend="native import", status=core.REFUTED,
                                              detail=f"the generated module does not import and no diagnostic names the operation: {type(e).__name__}: {e}")
                         r.add(ob)
